@@ -97,6 +97,12 @@ def run(ck):
         sb = Snapshot(impl[f"rb{2*p}_0"]).canonical()
         if sa and sa["gates"] != sb["gates"]:
             ep_bad.append(p)
+    # several gadget kinds on a shared pool of witnesses in one composer (caches keyed by witness, memoised bindings ...)
+    mbad, mprogs = composer.check_mixed_sequences(ck, composer.mixed_sequences(rng, 6 if quick else 60, "rbits"), "c09_mix", "C09")
+    if mbad and not ck.violations:
+        nm_, d_ = mbad[0]
+        ck.violation(f"correspondence C09 (L3) broke on mixed sequences of gadget calls: {nm_}: {d_}",
+                     {"failing_input_found": False, "correspondence": "L3 snapshot of a sequence of gadget calls on shared witnesses vs the Gallina model", "program": mprogs[nm_], "diff": d_, "theorems_no_longer_tied": THEOREMS})
     # L1: range widget formula, three forms
     wbad = [b for b in widgets.run_tie(ck, 400 if quick else 5000, rng, "c09w") if b[0] in ("range", "arith", "?")]
     # exactness on the REAL snapshots, decided by the extracted evaluator:
